@@ -154,8 +154,32 @@ func c10Run(c *core.Ctx) *core.Result {
 	}
 	mode := c.R.Weighted([]int{5, 1, 2, 4}) // none, keepall, keepall+rewrite, mixed
 	salt := c.R.U64()
+	// option combination: FollowPaths next to IncludePatterns. The follow
+	// paths are documented as "resolved into IncludePatterns": the reference
+	// evaluates the caller's list followed by the resolved targets (their
+	// resolution by fsutil.FollowLinks is C18's subject), in that order.
+	userInc := inc
+	var follow []string
+	if len(items) > 0 && c.R.P(1, 8) {
+		for i, n := 0, c.R.Range(1, 2); i < n; i++ {
+			follow = append(follow, items[c.R.Intn(len(items))].Path)
+		}
+		if base, e := fsutil.NewFS(src); e == nil {
+			if tg, e := fsutil.FollowLinks(base, follow); e == nil && len(tg) > 0 {
+				inc = append(append([]string{}, inc...), tg...)
+				r.Count("follow_paths_with_include_patterns", 1)
+				if len(userInc) > 0 {
+					r.Count("follow_paths_next_to_nonempty_include_list", 1)
+				}
+			} else {
+				follow = nil
+			}
+		} else {
+			follow = nil
+		}
+	}
 	naive, err := refs.SelectNaive(items, inc, exc)
-	opt := &fsutil.FilterOpt{IncludePatterns: inc, ExcludePatterns: exc}
+	opt := &fsutil.FilterOpt{IncludePatterns: userInc, ExcludePatterns: exc, FollowPaths: follow}
 	if err != nil {
 		// invalid pattern: the real constructor must refuse it too
 		if _, e2 := c10Walk(src, opt); e2 == nil {
@@ -170,7 +194,7 @@ func c10Run(c *core.Ctx) *core.Result {
 		r.Inconclusive = "incremental reference: " + err.Error()
 		return r
 	}
-	sample := map[string]any{"tree": t.Paths(), "include": inc, "exclude": exc, "map": []string{"none", "keepall", "keepall+rewrite", "mixed"}[mode]}
+	sample := map[string]any{"tree": t.Paths(), "include": userInc, "follow": follow, "include_with_resolved_follow_targets": inc, "exclude": exc, "map": []string{"none", "keepall", "keepall+rewrite", "mixed"}[mode]}
 	r.Sample = sample
 	r.FP = fmt.Sprintf("%s|%q|%q|%d", t.Fingerprint(), inc, exc, mode)
 	nsel := len(refs.WithAncestors(items, naive))
